@@ -387,18 +387,57 @@ def replay(ctx, case):
     if 'scaling' in case:
         check_scaling(ctx)
     elif 'log_lines' in case:
-        s = Session(show_unprocessed=not case.get('supress'))
         lines = case['log_lines']
-        s.feed([l + '\n' for l in lines[:-1]] + ([lines[-1]] if lines else []))
-        print(check_closed(s.events))
+        ctx.ev()
+        try:
+            s = Session(show_unprocessed=not case.get('supress'))
+            s.feed([l + '\n' for l in lines[:-1]] + ([lines[-1]] if lines else []))
+        except BaseException as e:
+            ctx.violation('log-exception', '%s: %r escaped the log pipeline' % (type(e).__name__, e), case)
+            return
+        opened, closed = check_closed(s.events)
+        print('opened', opened, 'closed', closed)
+        if sorted(opened) != sorted(closed):
+            ctx.violation('connection-not-closed', 'opened %r, closed %r' % (opened, closed), case)
     elif 'matcher' in case:
         from core import matcher
-        m = matcher.parse(case['matcher'])
-        print(repr(m), repr(m.simplify()))
+        ctx.ev()
+        try:
+            m = matcher.parse(case['matcher'])
+        except RuntimeError as e:
+            print('rejected:', e)
+            return
+        except BaseException as e:
+            ctx.violation('matcher-parse-exception', 'parse(%r) raised %s: %r' % (case['matcher'][:200], type(e).__name__, e), case)
+            return
+        try:
+            ms = m.simplify()
+            str(m), repr(m), str(ms), repr(ms)
+            s = Session()
+            s.feed(['[1.0]  -> wl_display@1.sync(new id wl_callback@2)\n', '[1.0] zz_q@777.odd(1e999, -1e999, 0.0, fd 3, nil, "s", array)\n',
+                    '[1.0]  -> zz_q@777.frob(new id [unknown]@778, nil, wl_what@999, ???)\n'])
+            for x in s.ctl.all_messages:
+                ms.matches(x)
+            print(repr(ms))
+        except BaseException as e:
+            ctx.violation('matcher-eval-exception', 'accepted matcher %r: %s: %r' % (case['matcher'][:200], type(e).__name__, e), case)
     elif 'command' in case:
         s = Session()
-        s.command(case['command'])
-        print(s.events)
+        if case.get('state') in ('loaded', 'selected', 'closed'):
+            s.feed(['[1.0] <1>  -> wl_display@1.sync(new id wl_callback@2)\n', '[2.0] <2>  -> wl_display@1.sync(new id wl_callback@2)\n'], cleanup=case.get('state') == 'closed')
+            if case.get('state') == 'selected':
+                s.command('connection A')
+        n0 = len(s.events)
+        ctx.ev()
+        try:
+            s.command(case['command'])
+        except BaseException as e:
+            ctx.violation('command-exception', '%r raised %s: %r' % (case['command'], type(e).__name__, e), case)
+            return
+        answered = [k for k, p in s.events[n0 + 1:] if k in ('out', 'err', 'ui')]
+        print(s.events[n0:])
+        if not answered:
+            ctx.violation('command-silent', '%r produced nothing' % case['command'], case)
     elif 'bytes_hex' in case:
         d = tempfile.mkdtemp(prefix='verif-c18-')
         fn = os.path.join(d, 'in.log')
